@@ -5,6 +5,7 @@ import (
 	"fmt"
 	"sort"
 	"strings"
+	"verif/harness/gram"
 
 	"github.com/influxdata/influxql"
 
@@ -20,6 +21,7 @@ import (
 type c19gen struct {
 	c     *xplore.Ctx
 	n     int
+	nm    int
 	reads []string // database of every measurement placed
 }
 
@@ -47,21 +49,24 @@ func (g *c19gen) source(depth int) string {
 	if depth > 0 {
 		kinds = 7
 	}
+	// measurement names rotate through the reserved system names: reading one of those is reading the database too
+	g.nm++
+	m := []string{"m", "_series", "_fieldKeys", "_measurements", "m2", "_name", "_tagKey", "_tagKeys", "_tags"}[g.nm%9]
 	switch g.c.Choose(kinds) {
 	case 0:
 		g.reads = append(g.reads, "")
-		return "m"
+		return m
 	case 1:
 		g.reads = append(g.reads, "")
-		return "rp.m"
+		return "rp." + m
 	case 2:
 		d := g.db()
 		g.reads = append(g.reads, d)
-		return d + ".rp.m"
+		return d + ".rp." + m
 	case 3:
 		d := g.db()
 		g.reads = append(g.reads, d)
-		return d + "..m"
+		return d + ".." + m
 	case 4:
 		g.reads = append(g.reads, "")
 		return "/re/"
@@ -318,6 +323,18 @@ func c19run(r *ev.Run) {
 	r.Set("select_executions", ex.Execs)
 	r.Set("select_deviation_bound", bound)
 	r.Set("select_by_deviations", ex.ByCost[:bound+1])
+	// every statement of the grammar model within two structural deviations (every option subset of the forms with
+	// options): non-empty, no error, administrative kinds require admin
+	runGrammar(r, []boundSet{{"every statement form, struct<=2", []int{2, 0, 0}}}, func(c *xplore.Ctx) (string, string, []ev.Finding, bool) {
+		g := gram.New(c)
+		g.NoValueAlts = true
+		spec := gram.Statement(g)
+		if g.InvalidWhy != "" {
+			return "", spec.Form, nil, true
+		}
+		text := gram.Render(nil, spec.Toks)
+		return text, spec.Form, c19checkStmt(text), false
+	})
 	stmts := c19Statements()
 	for _, t := range stmts {
 		n := r.Eval()
